@@ -200,6 +200,17 @@ pub fn run(a: &Args) -> Batch {
                 }
             }
         }
+        // turn / tilt the rectangular shades (exact angles, 0 and 180 included)
+        for sh in d.shadings.iter() {
+            if sh.geometry.is_none() || !r.chance(1, 2) {
+                continue;
+            }
+            let (ti, az) = (r.pick(&[0.0, 90.0, 180.0, 36.86989764584402, 126.86989764584402, 53.13010235415598]).clone(), r.pick(&EXACT).0);
+            if let Some(t) = set_attr(&bdl, &sh.name, "BUILDING-SHADE", "TILT", &format!("{:.6}", ti)).and_then(|t| set_attr(&t, &sh.name, "BUILDING-SHADE", "AZIMUTH", &format!("{:.6}", az))) {
+                bdl = t;
+                what.push(format!("shade {} tilt {:.2} azimuth {:.2}", sh.name, ti, az));
+            }
+        }
         if what.is_empty() {
             continue;
         }
@@ -397,7 +408,7 @@ pub fn run(a: &Args) -> Batch {
         agree: "agree_C03".into(),
         cases,
         impl_findings: vec![],
-        rule: "projects = the shipped .ctehexml projects + variants with the building deviation set to an exact-trigonometry angle (multiples of 90, 3-4-5, 5-12-13, 7-24-25 triangles) or a random tenth of a degree, spaces offset within the building, spaces turned within the building; per converted project: every wall on an edge of its space outline (4 corners through WallGeom::to_global_coords_matrix + outward normal), every floor / ceiling taken from the outline, every wall / slab area, every window (offset, size, setback), every rectangular shade (4 corners) and every shade given by vertices; per shipped project the same project with its deviation increased by an exact angle: positions, azimuths, areas, U-values, K, n50, volumes. Angles that are not exact carry an interval certificate that the (cos, sin) pair is right to 1e-7. non-trivial = the building is turned or the space offset".into(),
+        rule: "projects = the shipped .ctehexml projects + variants with the building deviation set to an exact-trigonometry angle (multiples of 90, 3-4-5, 5-12-13, 7-24-25 triangles) or a random tenth of a degree, spaces offset within the building, spaces turned within the building, rectangular shades re-tilted (0, 90, 180 and 3-4-5 angles) and re-oriented; per converted project: every wall on an edge of its space outline (4 corners through WallGeom::to_global_coords_matrix + outward normal), every floor / ceiling taken from the outline, every wall / slab area, every window (offset, size, setback), every rectangular shade (4 corners) and every shade given by vertices; per shipped project the same project with its deviation increased by an exact angle: positions, azimuths, areas, U-values, K, n50, volumes. Angles that are not exact carry an interval certificate that the (cos, sin) pair is right to 1e-7. non-trivial = the building is turned or the space offset".into(),
         stats: json!({"projects": projects.len(), "variants": nvar, "not_converted": not_converted, "cases_by_kind": st}),
     }
 }
